@@ -1347,12 +1347,46 @@ def _set_index(self, v):
     self._index = list(v.labels) if isinstance(v, _IndexView) else list(v)
 
 
-# expose frame.index so that `subframe["c"] = subframe.index` works (labels become concrete int cells)
-DataFrame.index = property(lambda self: _IndexList(self._index), _set_index)
-
-
 class _IndexList(list):
+    """frame.index: a list of concrete labels"""
+
+    @property
+    def is_unique(self):
+        return len(set(self)) == len(self)
+
+    def equals(self, other):
+        return list(self) == list(other)
+
+
+class Index(_IndexList):
     pass
+
+
+class RangeIndex(_IndexList):
+    """labels forming an arithmetic progression (what pandas stores as a RangeIndex): default, offset, strided or reversed ranges"""
+
+    def __init__(self, labels):
+        _IndexList.__init__(self, labels)
+        self.start = labels[0] if labels else 0
+        self.step = (labels[1] - labels[0]) if len(labels) > 1 else 1
+        self.stop = self.start + self.step * len(labels)
+
+
+def _index_object(labels):
+    labels = list(labels)
+    if all(isinstance(l, int) and not isinstance(l, bool) for l in labels):
+        if len(labels) < 2:
+            if not labels or labels[0] == 0:
+                return RangeIndex(labels)
+        else:
+            step = labels[1] - labels[0]
+            if step != 0 and all(labels[i + 1] - labels[i] == step for i in range(len(labels) - 1)):
+                return RangeIndex(labels)
+    return Index(labels)
+
+
+# expose frame.index so that `subframe["c"] = subframe.index` works (labels become concrete int cells)
+DataFrame.index = property(lambda self: _index_object(self._index), _set_index)
 
 
 def concat(frames, axis=0, ignore_index=False, sort=False):
@@ -1509,4 +1543,6 @@ def make_pandas():
     m.to_numeric = to_numeric
     m.api = _Api
     m.NA = None
+    m.RangeIndex = RangeIndex
+    m.Index = Index
     return m
